@@ -80,6 +80,49 @@ func runCRC(line []byte, rec *recorder) {
 			}
 			msg(rg.bytes(n))
 		}
+	case "pieces": // multi-byte pieces fed into arbitrary register states (0, single bits, all ones, random), zeros sprinkled in
+		states := []uint32{0, 0xffffffff, 1, 0x80000000, 0x04c11db7}
+		for i := 0; i < sc.N; i++ {
+			states = append(states, uint32(rg.u64()))
+		}
+		for _, st := range states {
+			for rep := 0; rep < 6; rep++ {
+				m := rg.bytes(rg.pick(1, 2, 3, 5, 9, 40))
+				switch rep {
+				case 0:
+					m[len(m)-1] = 0
+				case 1:
+					m[0] = 0
+				case 2:
+					m[0], m[len(m)-1] = 0, 0
+				case 3:
+					for j := range m {
+						if j%2 == 1 {
+							m[j] = 0
+						}
+					}
+				case 4:
+					for j := range m {
+						m[j] = 0
+					}
+				}
+				rec.ev(M{"ev": "updm", "s": u32(st), "m": ints(m), "v": u32(astits.VerifUpdateCRC32(st, m))})
+			}
+		}
+		// the same buffer checksummed again after being changed in place
+		for i := 0; i < sc.N; i++ {
+			buf := rg.bytes(rg.pick(8, 9, 16, 64, 188, 1024))
+			for rep := 0; rep < 3; rep++ {
+				msg(buf)
+				buf[rg.intn(len(buf))] ^= byte(1 << uint(rg.intn(8)))
+			}
+			// back to back on the very same memory: compute, change a byte in place, compute again
+			for rep := 0; rep < 3; rep++ {
+				rec.ev(M{"ev": "cmp", "m": ints(buf), "v": u32(astits.VerifComputeCRC32(buf))})
+				buf[rg.intn(len(buf))] ^= byte(1 << uint(rg.intn(8)))
+				rec.ev(M{"ev": "cmp", "m": ints(buf), "v": u32(astits.VerifComputeCRC32(buf))})
+			}
+		}
 	default:
 		fatal("unknown crc part %q", sc.Part)
 	}
